@@ -32,7 +32,7 @@ RULE = (
 
 PARAMS = {
     'quick': dict(random=40000, numbers=25, inserted=2),
-    'thorough': dict(random=600000, numbers=400, inserted=12),
+    'thorough': dict(random=1000000, numbers=400, inserted=40),
 }
 EXPECT_CLEAN = 'clean() replaces a character only by its ASCII equivalent (see property C14)'
 EXPECT_MOD = 'validate(look-alike spelling) == validate(ASCII spelling)'
